@@ -226,7 +226,8 @@ def esc_attr(t):
 def insitu_stylesheet(batch):
     """batch: list of pattern texts. Template rule i in mode m<i>; key k<i>; number instruction i."""
     parts = ['<xsl:stylesheet version="1.0" xmlns:xsl="%s" xmlns:p="u1" xmlns:q="u2">' % XSL,
-             '<xsl:key name="k" match="*[@x]" use="\'v\'"/>']
+             # the key indexes every kind of node a pattern can match, so that key() heads are tried on all of them
+             '<xsl:key name="k" match="*[@x]|text()|comment()|processing-instruction()|@y" use="\'v\'"/>']
     probe = ['<xsl:template name="probe">']
     keys_out = []
     for i, t in enumerate(batch):
@@ -263,7 +264,10 @@ def key_fn_factory(doc):
         out = []
         if kname == 'k':
             for n in doc.nodes:
-                if n.kind == R.ELEM and any(a.local == 'x' and not a.prefix for a in n.attrs) and v == 'v':
+                if v != 'v':
+                    continue
+                if (n.kind == R.ELEM and any(a.local == 'x' and not a.prefix for a in n.attrs)) or n.kind in (R.TEXT, R.COMMENT, R.PI) \
+                        or (n.kind == R.ATTR and n.local == 'y' and not n.prefix):
                     out.append(n)
         return X.doc_sorted(out)
     return keyfn
